@@ -121,7 +121,12 @@ void optionals()
       });
       // a const lvalue optional is rejected at compile time (container::make binds a non-const
       // fcppt::reference to the element), so only the other two categories exist
-      if constexpr (C != 'c')
+#ifdef C05_TO_CONTAINER_CONST
+      constexpr bool to_container_ok = true; // the tree under test copies from lvalue optionals
+#else
+      constexpr bool to_container_ok = C != 'c';
+#endif
+      if constexpr (to_container_ok)
         run1<C>("optional::to_container", true, sh, mk,
                 [](auto &&a) { return fcppt::optional::to_container<vec>(C05_FWD(a)); });
       if constexpr (C != 'l') // copy/move construction and assignment of the optional itself
@@ -325,14 +330,19 @@ void eithers()
       for (int i = 0; i < len; ++i) sh += ((mask >> i) & 1) ? 's' : 'f';
       sh += "]";
       bool const all = mask == (1 << len) - 1;
-      run1<'r'>("either::sequence", all, sh, [len, mask]
+      // lvalue sources are rejected by the requires-clause of either::sequence on the unchanged tree
+      // (reported as NOT-INSTANTIABLE); they are driven as soon as they compile
+      for_cats<'r', 'l', 'c'>([&](auto c)
       {
-        std::vector<eit> v;
-        v.reserve(static_cast<std::size_t>(len));
-        for (int i = 0; i < len; ++i) v.push_back(mk_eit(((mask >> i) & 1) != 0));
-        return v;
-      },
-      [](auto &&a) { return fcppt::either::sequence<vec>(C05_FWD(a)); });
+        run1<decltype(c)::value>("either::sequence", all, sh, [len, mask]
+        {
+          std::vector<eit> v;
+          v.reserve(static_cast<std::size_t>(len));
+          for (int i = 0; i < len; ++i) v.push_back(mk_eit(((mask >> i) & 1) != 0));
+          return v;
+        },
+        [](auto &&a) C05_CALL(fcppt::either::sequence<vec>(C05_FWD(a))));
+      });
       // first_success: no tracked argument; the functions produce fresh elements
       if (wanted("either::first_success"))
       {
